@@ -169,7 +169,15 @@ def beartype_type(
                 # class attribute of the currently decorated class whose value
                 # is that class (rather than as a nested class of the currently
                 # decorated class)...
-                not attr_value.__qualname__.startswith(cls.__qualname__)
+                #
+                # Note that the qualified name of a nested class is that of its
+                # parent class followed by a "." delimiter. Omitting this
+                # delimiter would erroneously match both this class itself
+                # (e.g., "cls.attr = cls", provoking infinite recursion) *AND*
+                # unrelated classes whose names merely begin with the name of
+                # this class (e.g., "Muh" and "MuhOther").
+                not attr_value.__qualname__.startswith(
+                    f'{cls.__qualname__}.')
             )
         ):
             # print(f'Decorating {repr(cls)} attribute "{attr_name}"...')
